@@ -90,6 +90,10 @@ def c15_stages(tier):
     return [ptfs_stage("C15", 4_000 if tier == "quick" else 150_000, timeout=2400, crash_is_violation=True)]
 
 
+def c16_stages(tier):
+    return [ptfs_stage("C16", 2_400 if tier == "quick" else 100_000, timeout=2400, crash_is_violation=True)]
+
+
 def c18_stages(tier):
     return [ptfs_stage("C18", 3_000 if tier == "quick" else 120_000, timeout=2400, crash_is_violation=True)]
 
@@ -249,6 +253,23 @@ PROPS = {
         "rule": "evaluations = requests; distinct = (request kind, k or none, errno, configuration) for histories and (kind, k, errno, inode_file_handles) for "
                 "sweeps; every request is non-trivial.",
         "assumptions": ["worker process is single-threaded", "ext4 scratch directory, running as root"],
+    },
+    "C16": {
+        "level": "exploration",
+        "stages": c16_stages,
+        "floor": 500,
+        "technique": "runtime monitoring: directory replies decoded with the kernel layout and compared with the host listing / a reference enumeration over random "
+                     "directory contents, request sizes from 'fits exactly one entry' upwards and random resume patterns; reference-count hook for READDIRPLUS",
+        "level_text": "Directories of 0..3000 entries (names 1-255 bytes, files/dirs/symlinks/fifos) served by a standalone passthrough, a VFS-wrapped passthrough "
+                      "and VFS pseudo directories with 0-40 mount points, with and without opendir. A large-buffer enumeration must equal the host listing "
+                      "(names, d_type, no dot entries, non-zero offsets, empty terminating reply); enumerations with the minimal size, minimal+random, "
+                      "2x and 4096 on the same and on other handles must reproduce the same sequence; resuming at the offset of a random k-th entry must "
+                      "continue with entry k+1; no reply exceeds its size or ends inside an entry; READDIRPLUS changes reference counts by exactly the "
+                      "number of times an inode was delivered.",
+        "level_note": "Sizes start at the size of the largest entry of the directory (the statement's 'can hold at least the next entry'). The NFS-cookie fallback "
+                      "(offset > i64::MAX) is unreachable on local ext4 and only covered by the crate's own unit tests.",
+        "rule": "evaluations = directories x targets; distinct = (target kind, plus, entry-count class, size mode, minimal size class).",
+        "assumptions": ["ext4 hash-ordered directory offsets are stable for an unchanged directory"],
     },
     "C18": {
         "level": "exploration",
